@@ -7,7 +7,14 @@ func VerifC19Emit() {
 	vCommittee(n)
 	vDeploy("proxy")
 	proxy, self := vContractHash("proxy"), vContractHash("alphabet")
-	vDeploy("alphabet", false, vAcct("netmap-placeholder"), proxy, "Az", idx, n)
+	// param 4 (if given): the number of Alphabet contracts the deployment recorded, when it is not the current
+	// committee size: a contract whose index is not below the committee size has NO node of its own (seven
+	// contracts after the committee shrank to four) and nobody may trigger it
+	total := n
+	if vParam(4) > 0 {
+		total = vParam(4)
+	}
+	vDeploy("alphabet", false, vAcct("netmap-placeholder"), proxy, "Az", idx, total)
 	vSetIR(irn)
 	g := vInt("g")
 	vAssume(g >= 0 && g <= 1000000000000)
@@ -37,8 +44,12 @@ func VerifC19Emit() {
 	if vParam(3) == 1 {
 		vAssert(vGasOf(vAcct("ir0")) == 0, "C19/a-node-the-last-designation-dropped-gets-nothing")
 	}
-	vAssert(ok == (who == idx && g/2 > 0), "C19/emit-only-by-its-own-alphabet-node-and-with-gas")
-	vRequire(ok, "emitted")
+	vAssert(ok == (who == idx && idx < n && g/2 > 0), "C19/emit-only-by-its-own-alphabet-node-and-with-gas")
+	if idx < n {
+		vRequire(ok, "emitted")
+	} else {
+		vCoverIf(!ok, "contract-without-a-node-of-its-own-refuses")
+	}
 	if ok {
 		vCoverIf(g > 1000000000 && g%2 == 1 && ((g-g/2)*7)%8 != 0 && (irn == 1 || ((g-g/2)*7/8)%irn != 0), "emitted-with-every-rounding-step-inexact")
 		half := g / 2
